@@ -23,8 +23,9 @@ Trace == ndJsonDeserialize("trace.ndjson")
 VARIABLES
     l,        \* next line
     now,      \* relative time of the running trace
-    chain,    \* [pre, rule, stat]
-    live,     \* id -> [res, b, inb, start, errs, out, counted, xh, args]
+    chains,   \* chain id -> [pre, rule, stat]; traces with ONE chain (modes chain / stat / global) use id 0, traces of
+              \* mode "multi" name the chain in every slot / entry event (field c)
+    live,     \* id -> [res, b, inb, start, errs, out, counted, xh, args, ch]  (ch = the chain the entry went through)
     exited,   \* admitted entries already exited
     blocked,  \* ids of blocked entries
     berr,     \* id -> [bt, rule, val] block errors handed out
@@ -33,11 +34,13 @@ VARIABLES
     g,        \* configuration of the running trace
     failed
 
-tvars == <<l, now, chain, live, exited, blocked, berr, acc, conc, g, failed>>
+tvars == <<l, now, chains, live, exited, blocked, berr, acc, conc, g, failed>>
 
 Ev == Trace[l]
 Has(r, f) == f \in DOMAIN r
 SeqSet(s) == { s[i] : i \in DOMAIN s }
+\* the chain an event names (0 = the one chain of a single-chain trace)
+CidOf(e) == IF Has(e, "c") THEN e.c ELSE 0
 
 Judge(ok, expected) ==
     IF failed \/ ok THEN failed' = failed
@@ -86,9 +89,10 @@ Visible(calls) == SelectSeq(calls, LAMBDA c : c.id \notin g.silent)
 TNew ==
     /\ IsEvent("new")
     /\ now' = Ev.t
-    /\ chain' = IF Ev.mode = "global"
-                  THEN [EmptyChain EXCEPT !.rule = << [ord |-> 1, id |-> 0, beh |-> "script", bm |-> ""] >>]
-                  ELSE EmptyChain
+    /\ chains' = IF Ev.mode = "global"
+                   THEN (0 :> [EmptyChain EXCEPT !.rule = << [ord |-> 1, id |-> 0, beh |-> "script", bm |-> ""] >>])
+                   ELSE IF Ev.mode = "multi" THEN << >>        \* chains are made by constructor events (TMChain)
+                   ELSE (0 :> EmptyChain)
     /\ live' = << >> /\ exited' = {} /\ blocked' = {} /\ berr' = << >>
     /\ acc' = [n \in SeqSet(Ev.nodes) |-> << >>]
     /\ conc' = [n \in SeqSet(Ev.nodes) |-> 0]
@@ -98,8 +102,18 @@ TNew ==
 
 TSlot ==
     /\ IsEvent("slot")
-    /\ chain' = [chain EXCEPT ![Ev.k] = Insert(@, [ord |-> Ev.ord, id |-> Ev.id, beh |-> Ev.beh, bm |-> Ev.bm])]
+    /\ chains' = [chains EXCEPT ![CidOf(Ev)][Ev.k] = Insert(@, [ord |-> Ev.ord, id |-> Ev.id, beh |-> Ev.beh, bm |-> Ev.bm])]
     /\ UNCHANGED <<now, live, exited, blocked, berr, acc, conc, g, failed>>
+
+\* ----- a chain obtained from one of the library's constructors (kind: "new" = base.NewSlotChain, "default" =
+\* api.BuildDefaultSlotChain, "global" = api.GlobalSlotChain): it starts without recording slots - the built-in slots of
+\* a default chain are real library slots, no rules are loaded, they pass and do not record.  From here on the chain
+\* consists of exactly the slots the following slot events add TO IT (Isolation of chains, see EntryChains.tla).
+TMChain ==
+    /\ IsEvent("mchain")
+    /\ chains' = IF Ev.c \in DOMAIN chains THEN chains ELSE chains @@ (Ev.c :> EmptyChain)
+    /\ Judge(Ev.c \notin DOMAIN chains /\ Ev.kind \in {"new", "default", "global"}, [rule |-> "a constructor event names a new chain"])
+    /\ UNCHANGED <<now, live, exited, blocked, berr, acc, conc, g>>
 
 \* ----- Entry
 TEntry ==
@@ -107,6 +121,10 @@ TEntry ==
     /\ LET so   == IF g.mode = "global"
                      THEN (IF Ev.blocked THEN "block" ELSE IF Ev.unh /\ Ev.hot THEN "panicRule" ELSE "pass")
                      ELSE Ev.so
+           \* the entry is judged against ITS chain: the slots added to that chain, nothing added to any other chain
+           cid   == CidOf(Ev)
+           known == cid \in DOMAIN chains     \* (an entry that names no chain of the trace is a mismatch, judged against no slots)
+           chain == IF known THEN chains[cid] ELSE EmptyChain
            r    == RunChain(chain, so)
            id   == Ev.id
            N    == NodesOf(Ev.res, Ev.inb) \cap DOMAIN acc
@@ -139,7 +157,7 @@ TEntry ==
            \* panic: like a passed entry or not at all.
            Cand == IF r.out = "panic" THEN {FALSE, TRUE} ELSE {r.out = "pass"}
            En(c) == [res |-> Ev.res, b |-> Ev.b, inb |-> Ev.inb, start |-> now, errs |-> {}, out |-> r.out,
-                     counted |-> c, xh |-> Ev.xh, args |-> Ev.args]
+                     counted |-> c, xh |-> Ev.xh, args |-> Ev.args, ch |-> cid]
            After(c) == IF r.out = "block"
                          THEN [acc |-> AccBlock(acc, N, g.pbl, now, Ev.b), conc |-> conc, live |-> live]
                          ELSE [acc |-> IF c THEN AccPass(acc, N, g.pbl, now, Ev.b) ELSE acc,
@@ -150,9 +168,9 @@ TEntry ==
            s    == After(pick)
        IN /\ acc' = s.acc /\ conc' = s.conc /\ live' = s.live /\ berr' = be2
           /\ blocked' = IF r.out = "block" THEN blocked \cup {id} ELSE blocked
-          /\ Judge(logOK /\ resOK /\ Good # {},
-                   [calls |-> vis.calls, out |-> r.out, blk |-> r.blk, state |-> ExpState(s.acc, s.conc, s.live, be2, now)])
-    /\ UNCHANGED <<now, chain, exited, g>>
+          /\ Judge(known /\ logOK /\ resOK /\ Good # {},
+                   [calls |-> vis.calls, out |-> r.out, blk |-> r.blk, chain |-> cid, state |-> ExpState(s.acc, s.conc, s.live, be2, now)])
+    /\ UNCHANGED <<now, chains, exited, g>>
 
 \* ----- TraceError: on a live entry the error becomes one of its own; on an exited entry nothing changes
 TTerr ==
@@ -161,7 +179,7 @@ TTerr ==
        /\ live' = lv2
        /\ Judge(~Ev.esc /\ Ev.calls = << >> /\ StateOK(Ev.st, acc, conc, lv2, berr, now),
                 [calls |-> << >>, state |-> ExpState(acc, conc, lv2, berr, now)])
-    /\ UNCHANGED <<now, chain, exited, blocked, berr, acc, conc, g>>
+    /\ UNCHANGED <<now, chains, exited, blocked, berr, acc, conc, g>>
 
 \* ----- Exit: the first Exit of an admitted entry completes it; any later Exit changes nothing
 Handlers(calls) == SelectSeq(calls, LAMBDA c : c.k = "xh")
@@ -171,6 +189,7 @@ TExit ==
     /\ IF Ev.id \in DOMAIN live
          THEN LET id    == Ev.id
                   en    == live[id]
+                  chain == IF en.ch \in DOMAIN chains THEN chains[en.ch] ELSE EmptyChain       \* completion is announced by the chain the entry went through
                   errs  == en.errs \cup (IF Ev.e = "" THEN {} ELSE {Ev.e})
                   N     == NodesOf(en.res, en.inb) \cap DOMAIN acc
                   rt    == now - en.start
@@ -202,7 +221,7 @@ TExit ==
          ELSE /\ UNCHANGED <<acc, conc, live, exited>>
               /\ Judge(~Ev.esc /\ Ev.calls = << >> /\ StateOK(Ev.st, acc, conc, live, berr, now),
                        [calls |-> << >>, state |-> ExpState(acc, conc, live, berr, now)])
-    /\ UNCHANGED <<now, chain, blocked, berr, g>>
+    /\ UNCHANGED <<now, chains, blocked, berr, g>>
 
 TTick ==
     /\ IsEvent("tick")
@@ -210,11 +229,11 @@ TTick ==
     /\ now' = Ev.t
     /\ acc' = PruneAll(acc, g.pbl, g.pint, Ev.t)
     /\ Judge(StateOK(Ev.st, acc', conc, live, berr, Ev.t), [state |-> ExpState(acc', conc, live, berr, Ev.t)])
-    /\ UNCHANGED <<chain, live, exited, blocked, berr, conc, g>>
+    /\ UNCHANGED <<chains, live, exited, blocked, berr, conc, g>>
 
 TNoop ==
     /\ IsEvent("noop")
-    /\ UNCHANGED <<now, chain, live, exited, blocked, berr, acc, conc, g, failed>>
+    /\ UNCHANGED <<now, chains, live, exited, blocked, berr, acc, conc, g, failed>>
 
 \* ----- free-running stress phase, judged at quiescence on order-insensitive totals only (clock frozen, so every
 \* event of the phase is inside the current bucket): conservation, one completion per passed entry, gauge zero.
@@ -234,7 +253,7 @@ TStress ==
                  /\ (Ev.panic_pct = 0 => Ev.rec.orphan = 0 /\ Ev.rec.completed = Ev.rec.passed)
        IN Judge(ok, [req |-> Ev.req, conc |-> conc, rule |-> "pass+block in [req, req+reqp], complete = pass, gauge back to its value before, each passed entry completed exactly once"])
     \* the totals of the phase are not replayed: the trace ends here
-    /\ UNCHANGED <<now, chain, live, exited, blocked, berr, acc, conc, g>>
+    /\ UNCHANGED <<now, chains, live, exited, blocked, berr, acc, conc, g>>
 
 \* ----- first-entry race: in every round several goroutines enter a never-seen resource at the same instant (clock frozen).
 \* Totals over the rounds: with all admitted entries in flight the resource's gauge is the number of entries and its pass sum
@@ -247,13 +266,13 @@ TFirstRace ==
                  /\ Ev.conc_after = 0 /\ Ev.complete = Ev.tokens
        IN Judge(ok, [entries |-> Ev.entries, tokens |-> Ev.tokens,
                      rule |-> "gauge in flight = entries, pass = tokens, gauge after = 0, complete = tokens, on the node of the resource entered"])
-    /\ UNCHANGED <<now, chain, live, exited, blocked, berr, acc, conc, g>>
+    /\ UNCHANGED <<now, chains, live, exited, blocked, berr, acc, conc, g>>
 
 TInit ==
-    /\ l = 1 /\ now = 0 /\ chain = EmptyChain /\ live = << >> /\ exited = {} /\ blocked = {} /\ berr = << >>
+    /\ l = 1 /\ now = 0 /\ chains = (0 :> EmptyChain) /\ live = << >> /\ exited = {} /\ blocked = {} /\ berr = << >>
     /\ acc = << >> /\ conc = << >>
     /\ g = [tr |-> 0, mode |-> "", pbl |-> 500, vint |-> 1000, pint |-> 10000, silent |-> {}]
     /\ failed = FALSE
-TNext == TNew \/ TSlot \/ TEntry \/ TTerr \/ TExit \/ TTick \/ TNoop \/ TStress \/ TFirstRace
+TNext == TNew \/ TMChain \/ TSlot \/ TEntry \/ TTerr \/ TExit \/ TTick \/ TNoop \/ TStress \/ TFirstRace
 TSpec == TInit /\ [][TNext]_tvars
 =============================================================================
